@@ -521,6 +521,7 @@ class CallGraph:
     def __init__(self, F):
         self.F = F
         self.out = {}
+        self.direct = {}     # precise edges only: resolved crate-local callees and closures created
         by_adt = {}
         for i in F.impls:
             h = i.get('self_head') or {}
@@ -528,7 +529,11 @@ class CallGraph:
                 by_adt.setdefault(h['adt'], []).append(i)
         for body in F.fns():
             es = set()
+            ds = set()
             for c in body.calls():
+                cal0 = local_callee(F, c)
+                if cal0 is not None:
+                    ds.add(cal0.key)
                 # generic library code instantiated with a crate type may call any trait
                 # method of that type (Deserializer::read::<T> -> T::read)
                 if c.fn and not c.fn.get('res_local'):
@@ -558,6 +563,7 @@ class CallGraph:
                     rv = st['rv']
                     if rv['k'] == 'agg' and 'closure' in rv and rv['closure'] in F.bodies:
                         es.add(rv['closure'])
+                        ds.add(rv['closure'])
                     # function items used as values (map(Serializable::length))
                     if rv['k'] == 'use' and 'c' in rv['a'] and 'fn' in rv['a']['c']:
                         fn = rv['a']['c']['fn']
@@ -573,6 +579,7 @@ class CallGraph:
                             if k in F.bodies:
                                 es.add(k)
             self.out[body.key] = es
+            self.direct[body.key] = ds
 
     def reachable(self, roots):
         seen = set()
@@ -967,6 +974,8 @@ def const_label(F, body, op, depth=0):
             return ('lit', s.replace('const ', ''))
         if 'v' in c:
             return ('int', c['v'])
+        if 'uneval' in c:
+            return ('constref', c['uneval'])      # a named constant: equal names denote equal values
         return None
     l = op_local(op)
     if l is None:
@@ -996,3 +1005,58 @@ def param_by_type(body, pattern, nth=0):
 
 def params_by_type(body, pattern):
     return [p for p in range(1, body.argc + 1) if re.search(pattern, body.local_ty(p))]
+
+
+def guard_accessors(F):
+    """Crate functions that hand out a MutexGuard (Covercrypt::rng, private lock helpers): calling one IS an
+    acquisition of the lock."""
+    return set(b.key for b in F.fns() if b.kind != 'Closure' and 'MutexGuard<' in b.locals[0]['ty'])
+
+
+_CG_CACHE = {}
+
+
+def callgraph(F):
+    if id(F) not in _CG_CACHE:
+        _CG_CACHE.clear()
+        _CG_CACHE[id(F)] = CallGraph(F)
+    return _CG_CACHE[id(F)]
+
+
+def reach_bodies(F, key, stop=(), precise=True):
+    """The function, its closures and every crate function reachable from it through resolved direct calls
+    (helpers extracted from it included); `stop`: keys not to enter.  precise=False also follows the
+    over-approximate edges (generic dispatch, trait methods of crate types used as generic arguments)."""
+    CG = callgraph(F)
+    E = CG.direct if precise else CG.out
+    seen = set()
+    work = [key]
+    while work:
+        k = work.pop()
+        if k in seen or k not in E or k in stop:
+            continue
+        seen.add(k)
+        work.extend(E[k])
+    return [F.bodies[k] for k in sorted(seen)]
+
+
+def only_reached_via(F, fn_key, root_key):
+    """Every call path to fn_key goes through root_key (fn_key is root_key, or a private helper all of whose
+    callers are themselves only reached via root_key)."""
+    CG = callgraph(F)
+    seen = set()
+
+    def ok(k, depth=0):
+        if k == root_key:
+            return True
+        if k in seen or depth > 8:
+            return True
+        seen.add(k)
+        callers = CG.callers(k)
+        b = F.bodies.get(k)
+        if not callers:
+            return False
+        if b is not None and b.is_pub and b.kind != 'Closure':
+            return False
+        return all(ok(c, depth + 1) for c in callers)
+    return ok(fn_key)
